@@ -607,6 +607,23 @@ where
         &mut self,
         diff: &Diff<T>,
     ) -> Result<(), Self::Error> {
+        // Verify the checkpoint against the new events before
+        // any existing event is deleted; once the transaction has
+        // been committed the previous events cannot be restored
+        let mut tree = CommitTree::new();
+        for record in diff.patch.records() {
+            tree.insert(*record.commit().as_ref());
+        }
+        tree.commit();
+        let computed = tree.head()?;
+        if computed != diff.checkpoint {
+            return Err(Error::CheckpointVerification {
+                checkpoint: diff.checkpoint.root,
+                computed: computed.root,
+            }
+            .into());
+        }
+
         self.insert_records(diff.patch.records(), true).await?;
 
         let computed = self.tree().head()?;
